@@ -589,6 +589,132 @@ fn state_query_case(r: &mut Rng, known_clock_removed: bool, stats: &mut Stats) -
 	Ok(())
 }
 
+/// A plain or a spatial track, paused, then (a) resumed with `resume(tween)` whose fade-in tween has a delayed start: the track
+/// is Resuming at once - its sounds advance, silently, until the fade begins - and Playing when the delayed fade has ended;
+/// or (b) resumed with `resume_at` a clock time of a clock that is NOT running (never started, paused past that time,
+/// stopped): the track waits - frozen and silent - until the clock is started.
+fn resume_variants_case(r: &mut Rng, stats: &mut Stats) -> Result<(), String> {
+	enum T {
+		Plain(TrackHandle),
+		Spatial(kira::track::SpatialTrackHandle),
+	}
+	impl T {
+		fn pause(&mut self, t: Tween) {
+			match self {
+				T::Plain(h) => h.pause(t),
+				T::Spatial(h) => h.pause(t),
+			}
+		}
+		fn resume(&mut self, t: Tween) {
+			match self {
+				T::Plain(h) => h.resume(t),
+				T::Spatial(h) => h.resume(t),
+			}
+		}
+		fn resume_at(&mut self, st: StartTime, t: Tween) {
+			match self {
+				T::Plain(h) => h.resume_at(st, t),
+				T::Spatial(h) => h.resume_at(st, t),
+			}
+		}
+		fn state(&self) -> TrackPlaybackState {
+			match self {
+				T::Plain(h) => h.state(),
+				T::Spatial(h) => h.state(),
+			}
+		}
+		fn play(&mut self, d: kira::sound::static_sound::StaticSoundData) -> Result<StaticSoundHandle, String> {
+			match self {
+				T::Plain(h) => h.play(d).map_err(|_| "play".to_string()),
+				T::Spatial(h) => h.play(d).map_err(|_| "play".to_string()),
+			}
+		}
+	}
+	let mut rig = Rig::simple(SR, IBS);
+	let listener = rig.mgr.add_listener(glam::Vec3::ZERO, glam::Quat::IDENTITY).map_err(|_| "listener")?;
+	let spatial = r.chance(0.5);
+	let kind = if spatial { "spatial track" } else { "track" };
+	let mut t = if spatial {
+		T::Spatial(rig.mgr.add_spatial_sub_track(&listener, glam::Vec3::ZERO, kira::track::SpatialTrackBuilder::new().attenuation_function(None::<Easing>).spatialization_strength(0.0)).map_err(|_| "t")?)
+	} else {
+		T::Plain(rig.mgr.add_sub_track(TrackBuilder::new()).map_err(|_| "t")?)
+	};
+	let s = t.play(crate::probes::dc_sound(SR, 100_000, 0.25))?;
+	let mut clock = rig.mgr.add_clock(ClockSpeed::TicksPerSecond(SR as f64 / IBS as f64)).map_err(|_| "c")?;
+	let clock_variant = r.below(3);
+	let k = r.usize_in(1, 5);
+	match clock_variant {
+		0 => {}
+		1 => {
+			clock.start();
+			for _ in 0..k {
+				rig.callback(IBS);
+			}
+			clock.pause();
+		}
+		_ => {
+			clock.start();
+			for _ in 0..k {
+				rig.callback(IBS);
+			}
+			clock.stop();
+		}
+	}
+	rig.callback(IBS);
+	t.pause(fade(0.0));
+	for _ in 0..3 {
+		rig.callback(IBS);
+	}
+	stats.callbacks += 4;
+	if t.state() != TrackPlaybackState::Paused {
+		return Err(format!("{}: not Paused three callbacks after an instant pause: {:?}", kind, t.state()));
+	}
+	let p0 = s.position();
+	if r.chance(0.5) {
+		// (a) resume() with a fade-in whose start is delayed
+		let (w, d) = (r.usize_in(2, 6), r.usize_in(0, 3));
+		let mut tw = fade(d as f64);
+		tw.start_time = StartTime::Delayed(Duration::from_secs_f64((w as f64 + 0.5) * IBS as f64 / SR as f64));
+		t.resume(tw);
+		rig.callback(IBS);
+		rig.callback(IBS);
+		let st = t.state();
+		if st != TrackPlaybackState::Resuming {
+			return Err(format!("{}: resume() with a fade-in tween that starts after {}.5 chunks: state {:?} two callbacks later, expected Resuming (resume() resumes now; only the fade is delayed)", kind, w, st));
+		}
+		if s.position() <= p0 {
+			return Err(format!("{}: resume() with a delayed fade-in: the sound's position has not moved two callbacks later ({} -> {})", kind, p0, s.position()));
+		}
+		for _ in 0..w + d + 3 {
+			rig.callback(IBS);
+		}
+		let out = rig.callback(IBS).to_vec();
+		if t.state() != TrackPlaybackState::Playing || out.iter().all(|x| *x == 0.0) {
+			return Err(format!("{}: resume() with a fade-in of {} chunks delayed by {}.5 chunks: {} callbacks later the state is {:?} and the output is {}", kind, d, w, w + d + 6, t.state(), if out.iter().all(|x| *x == 0.0) { "silent" } else { "audible" }));
+		}
+	} else {
+		// (b) resume_at a time of a clock that is not running
+		let target = if clock_variant == 1 { r.below(k as u64 + 1) } else { 0 };
+		let what = ["never started", "paused", "stopped (time back at 0)"][clock_variant as usize];
+		t.resume_at(StartTime::ClockTime(ClockTime::from_ticks_u64(clock.id(), target)), fade(0.0));
+		for n in 0..r.usize_in(3, 9) {
+			let out = rig.callback(IBS).to_vec();
+			if t.state() != TrackPlaybackState::WaitingToResume || out.iter().any(|x| *x != 0.0) || s.position() != p0 {
+				return Err(format!("{}: resume_at tick {} of a clock that is not running ({}): {} callbacks later the state is {:?}, the output is {}, the sound's position went {} -> {}; expected to wait, frozen and silent, until the clock runs", kind, target, what, n + 1, t.state(), if out.iter().any(|x| *x != 0.0) { "audible" } else { "silent" }, p0, s.position()));
+			}
+		}
+		clock.start();
+		let mut heard = false;
+		for _ in 0..4 {
+			heard |= rig.callback(IBS).iter().any(|x| *x != 0.0);
+		}
+		if !heard {
+			return Err(format!("{}: resume_at tick {} of a clock ({}) that was then started: still silent 4 callbacks later", kind, target, what));
+		}
+	}
+	Ok(())
+}
+
 /// A pause whose fade-out tween has a delayed start: the track keeps playing (reported Pausing) until the start time,
 /// then fades for the tween's duration (also when that is zero) and only then freezes.
 fn delayed_fade_case(r: &mut Rng, stats: &mut Stats) -> Result<(), String> {
@@ -658,8 +784,10 @@ pub fn run(ctx: &mut Ctx) {
 			0..=5 => tree_case(&mut r, &mut stats),
 			6 | 7 => delay_extension_case(&mut r, &mut stats),
 			_ => {
-				if r.chance(0.4) {
+				if r.chance(0.3) {
 					delayed_fade_case(&mut r, &mut stats)
+				} else if r.chance(0.4) {
+					resume_variants_case(&mut r, &mut stats)
 				} else {
 					state_query_case(&mut r, clock_known, &mut stats)
 				}
